@@ -456,29 +456,29 @@ func runConfig(r *runner) {
 var cfgIntBoundary = []int64{-1, 0, 1, 2, 98, 99, 100, 101, 1<<31 - 1, 1 << 31, 1 << 40, math.MaxInt64, math.MinInt64}
 
 var cfgStrSamples = []string{
-	"=",                     // empty
-	"77",                    // "w"
-	"7732",                  // "w2"
-	"77616c",                // "wal"
-	"c3bc",                  // ü
-	"e6bca2",                // 漢
-	"f09f9880",              // 😀
-	"efbfbd",                // a literal U+FFFD (valid)
-	"e280a8",                // U+2028 (escaped by encoding/json)
-	"3c3e26",                // <>& (HTML-escaped by encoding/json)
-	"225c2f",                // "\/
-	"0001091f7f",            // control characters
-	"20",                    // a space
-	"ff",                    // invalid: lone 0xff
-	"77ff78",                // invalid in the middle
-	"c0af",                  // overlong
-	"eda080",                // UTF-16 surrogate
-	"e282",                  // truncated 3-byte sequence
-	"f4908080",              // beyond U+10FFFF
-	"80",                    // lone continuation byte
-	"c3",                    // truncated 2-byte sequence
-	"f09f98",                // truncated 4-byte sequence
-	"77c328",                // bad continuation
+	"=",          // empty
+	"77",         // "w"
+	"7732",       // "w2"
+	"77616c",     // "wal"
+	"c3bc",       // ü
+	"e6bca2",     // 漢
+	"f09f9880",   // 😀
+	"efbfbd",     // a literal U+FFFD (valid)
+	"e280a8",     // U+2028 (escaped by encoding/json)
+	"3c3e26",     // <>& (HTML-escaped by encoding/json)
+	"225c2f",     // "\/
+	"0001091f7f", // control characters
+	"20",         // a space
+	"ff",         // invalid: lone 0xff
+	"77ff78",     // invalid in the middle
+	"c0af",       // overlong
+	"eda080",     // UTF-16 surrogate
+	"e282",       // truncated 3-byte sequence
+	"f4908080",   // beyond U+10FFFF
+	"80",         // lone continuation byte
+	"c3",         // truncated 2-byte sequence
+	"f09f98",     // truncated 4-byte sequence
+	"77c328",     // bad continuation
 }
 
 var cfgFloatSamples = []uint64{
